@@ -255,7 +255,7 @@ func c27shard(r *core.R, shard, n int) {
 					}
 				}
 			}
-			r.Eval(1)
+			r.Eval(2) // one judgement per seam (per-SubFilter validator, public API)
 			judge := func(seam string, vd []sigdoc.Verdict, err error, byField bool) {
 				if err != nil {
 					r.Count("rejected_unreadable_"+seam, 1)
